@@ -1573,6 +1573,7 @@ store_lop(vbi_decoder *vbi, const cache_page *vtp)
 			// fprintf(stderr, "+");
 
 			pthread_mutex_lock(&vbi->chswcd_mutex);
+			VERIF_REGION("chswcd", 1);
 			vbi->chswcd = 0;
 			pthread_mutex_unlock(&vbi->chswcd_mutex);
 
@@ -1603,6 +1604,8 @@ store_lop(vbi_decoder *vbi, const cache_page *vtp)
 
 		default: /* inconclusive */
 			pthread_mutex_lock(&vbi->chswcd_mutex);
+
+			VERIF_REGION("chswcd", 0);
 
 			if (vbi->chswcd > 0) {
 				pthread_mutex_unlock(&vbi->chswcd_mutex);
